@@ -64,6 +64,7 @@ def tok_allowed(kind, tok):
 
 def run(ctx):
     freezemap_rule(ctx)
+    ser_narrowing_rule(ctx)
     f = ctx.f
     m = matrix(f)
     ctx.floor('WIRE', 'serializer functions matching on the schema node', len(m), 13)
@@ -643,6 +644,45 @@ SPEC_LOGICAL_BASE = {   # Avro 1.11 "Logical Types": which primitive each logica
     'Decimal': {'Bytes', 'Fixed'}, 'Uuid': {'String'}, 'Date': {'Int'}, 'TimeMillis': {'Int'}, 'TimeMicros': {'Long'},
     'TimestampMillis': {'Long'}, 'TimestampMicros': {'Long'}, 'Duration': {'Fixed'}, 'BigDecimal': {'Bytes'},
 }
+
+
+LOSSY_CASTS_REVIEWED = {   # (short fn, from, to): (count, reason) - the serializer's only narrowing `as` casts
+    ('serialize_unscaled', 'usize', 'i32'): (3, 'lengths of at most 16 bytes of an i128 (len <= 16)'),
+    ('serialize_duration_field', 'isize', 'u8'): (1, 'discriminant of the three-valued field enum (0..=2) used as a bit index'),
+    ('serialize_duration_field', 'isize', 'usize'): (1, 'same discriminant used as an array index'),
+}
+
+
+def ser_narrowing_rule(ctx):
+    """no value on its way to the wire is narrowed by an `as` cast in the serializer (values out of the Avro type's range
+    must be an Err, never wrapped), and nothing is written through a partial-write primitive: closed, reviewed inventory"""
+    f = ctx.f
+    from .c03 import lossy_int_cast
+    used = {}
+    bad = []
+    n = 0
+    io_bad = []
+    for b in f.body_list:
+        fl = fn_label(b)
+        if not fl.startswith(('ser::', '<ser::')):
+            continue
+        for bb in sorted(b.live_blocks()):
+            if b.is_cleanup(bb):
+                continue
+            for s in b.stmts(bb):
+                if 'assign' in s and s['rv']['k'] == 'cast' and s['rv']['cast'] == 'IntToInt' and const_int(s['rv']['op']) is None and lossy_int_cast(s['rv']['from'], s['rv']['to']):
+                    n += 1
+                    key = (short_fn(fl).split('::{')[0].rsplit('::', 1)[-1], s['rv']['from'], s['rv']['to'])
+                    if key in LOSSY_CASTS_REVIEWED and used.get(key, 0) < LOSSY_CASTS_REVIEWED[key][0]:
+                        used[key] = used.get(key, 0) + 1
+                    else:
+                        bad.append('%s: %s as %s at %s' % (short_fn(fl), s['rv']['from'], s['rv']['to'], short_loc(s.get('span'))))
+        for bb, t in b.calls():
+            c = t.get('callee') or ''
+            if c.startswith('std::io::Write::') and not c.endswith(('::write_all', '::write_fmt')) and not b.is_cleanup(bb):
+                io_bad.append('%s in %s' % (c.rsplit('::', 1)[1], short_fn(fl)))
+    ctx.ob('RANGE', 'no-unreviewed-narrowing-cast-in-ser', not bad, None, 'narrowing `as` casts in ser:: beyond the %d reviewed ones: %s' % (sum(v[0] for v in LOSSY_CASTS_REVIEWED.values()), bad or 'none'))
+    ctx.ob('RANGE', 'ser-writes-only-with-write_all', not io_bad, None, 'partial-write / flush primitives used by the datum serializer: %s' % (io_bad or 'none'))
 
 
 def freezemap_rule(ctx):
